@@ -256,9 +256,13 @@ func init() {
 		Units: serveUnits,
 		Runs: []Run{
 			{Pkg: "fasthttp", Func: "vhC34ResponseStream", Quick: map[string]int{"dataLen": 4}, Thorough: map[string]int{"dataLen": 8}},
+			{Pkg: "fasthttp", Func: "vhC34CompressedStream", Quick: map[string]int{"dataLen": 3}, Thorough: map[string]int{"dataLen": 5}, NoNative: true},
+			{Pkg: "fasthttp", Func: "vhC02StreamAcrossConns"},
 		},
 		Assume: []string{serveAssume + " (this harness additionally injects write failures)",
-			"response body streams only: an io.ReadCloser with ≤ dataLen arbitrary bytes, read one byte at a time or in bulk, declared size exact or unknown (-1), optional panic in the first or second Read, optional failure of every connection write; request body streams, SetBodyStreamWriter, Reset/Release paths without a write, and declared sizes that differ from the produced length are outside this check",
+			"response body streams only: an io.ReadCloser with ≤ dataLen arbitrary bytes, read one byte at a time or in bulk, declared size exact or unknown (-1), optional panic in the first or second Read, optional failure of every connection write; SetBodyStreamWriter, Reset/Release paths without a write, and declared sizes that differ from the produced length (C03) are outside this check",
+			"compressed streams (vhC34CompressedStream): newCompressedBodyStream with an identity codec (the real codecs are C22's subject) over ≤ dataLen arbitrary bytes; the consumer discards at once, after one byte, or reads to the end, and closes once or twice, with a schedule choice point after every copied piece; not re-run natively (schedule-dependent)",
+			"request body streams (vhC02StreamAcrossConns): a chunked upload that breaks off inside a chunk, then a well-formed chunked upload on another connection of the same Server (pooled stream objects): the second handler reads exactly its own body",
 		},
 	})
 	register(&Property{
